@@ -41,6 +41,8 @@ func inj(tag string, q byte) scen.Step {
 func handle(h int) scen.Step { return scen.Step{Op: "handle", H: h} }
 
 var workloads = map[string]workload{
+	// QoS 2 messages accepted before the first connection exists (and while its establishment fails)
+	"preq2": {Pre: []scen.Step{pub(2, "a"), pub(1, "b"), pub(2, "c")}, Steps: []scen.Step{pub(2, "d")}},
 	// requests in flight while a hand-written loop switches clients make-before-break
 	"sw1": {Steps: []scen.Step{pub(1, "a"), op("switch"), pub(2, "b"), sub(ss("u/s1", 1)), op("switch"), pub(1, "c"), pub(2, "d"), op("cut"), pub(1, "e"), op("switch"), unsub("u/s1"), pub(2, "f")}},
 	// make-before-break: the hand-written loops install a new client while the previous connection is still open and
